@@ -7,6 +7,7 @@ import (
 
 	"github.com/hydraide/hydraide/app/core/hydra/swamp/chronicler"
 	"github.com/hydraide/hydraide/app/core/hydra/swamp/metadata"
+	"github.com/hydraide/hydraide/app/core/hydra/swamp/treasure"
 	"github.com/hydraide/hydraide/app/name"
 	"github.com/hydraide/hydraide/app/verifrt"
 )
@@ -379,3 +380,82 @@ func VerifC05History(h *verifrt.H) {
 	}
 	h.Cover("end")
 }
+
+// ---------- C09 ----------
+
+func c09set(s Swamp, key string, v int64) treasure.TreasureStatus {
+	t := s.CreateTreasure(key)
+	g := t.StartTreasureGuard(true)
+	defer t.ReleaseTreasureGuard(g)
+	t.SetContentInt64(g, v)
+	return t.Save(g)
+}
+
+// VerifC09Linear: two clients act concurrently on ONE key (fresh or existing) of an in-memory,
+// interval-persistent or immediate-write swamp: client A increments by dA, client B increments
+// by dB or sets vB (all symbolic). For every interleaving within the preemption bound the
+// responses and the final value equal those of one of the two serial orders - no acknowledged
+// increment is lost - and nothing panics or blocks.
+func VerifC09Linear(h *verifrt.H) {
+	h.BackgroundLowPriority(true)
+	var s Swamp
+	switch h.Choose("swampMode", h.Param("modes", 3)) {
+	case 0:
+		s = vfMem(h, nil)
+	case 1:
+		s = vfPersist(h, h.TempDir()+"/sw", time.Second, nil)
+	default:
+		s = vfPersist(h, h.TempDir()+"/sw", 0, nil)
+	}
+	v0 := int64(0)
+	if h.Choose("keyExistsBefore", 2) == 1 {
+		v0 = h.Int64("initial")
+		c09set(s, "k", v0)
+	}
+	dA, dB := h.Int64("dA"), h.Int64("dB")
+	h.Assume(dA != 0 && dB != 0)
+	bSets := h.Choose("clientBSets", 2) == 1
+	var respA, respB int64
+	var okA, okB bool
+	h.Go("clientA", func() {
+		s.BeginVigil()
+		defer s.CeaseVigil()
+		v, inc, _, err := s.IncrementInt64("k", dA, nil, nil, nil)
+		respA, okA = v, err == nil && inc
+	})
+	h.Go("clientB", func() {
+		s.BeginVigil()
+		defer s.CeaseVigil()
+		if bSets {
+			c09set(s, "k", dB)
+			okB = true
+			return
+		}
+		v, inc, _, err := s.IncrementInt64("k", dB, nil, nil, nil)
+		respB, okB = v, err == nil && inc
+	})
+	h.AtQuiescence(func() {
+		h.Assert(okA && okB, "both-requests-acknowledged")
+		t, err := s.GetTreasure("k")
+		h.Assert(err == nil, "key-present-at-the-end")
+		if err != nil {
+			return
+		}
+		final, ferr := t.GetContentInt64()
+		h.Assert(ferr == nil, "value-is-an-integer")
+		if bSets {
+			aThenB := respA == v0+dA && final == dB
+			bThenA := respA == dB+dA && final == dB+dA
+			h.Assert(aThenB || bThenA, "outcome-equals-a-serial-order")
+		} else {
+			aThenB := respA == v0+dA && respB == v0+dA+dB
+			bThenA := respB == v0+dB && respA == v0+dA+dB
+			h.Assert(final == v0+dA+dB, "no-increment-lost")
+			h.Assert(aThenB || bThenA, "outcome-equals-a-serial-order")
+		}
+		h.Cover("end")
+	})
+}
+
+// VerifC09LinearMem: the in-memory configuration alone (explored with a higher preemption bound).
+func VerifC09LinearMem(h *verifrt.H) { VerifC09Linear(h) }
